@@ -350,3 +350,27 @@ def range_cases(rng: random.Random, thorough: bool):
         lines += ["close", "end"]
         cases.append("\n".join(lines) + "\n"); i += 1
     return cases
+
+
+def damage_case(name, rng: random.Random, length=5):
+    """clean history without rollover at the end, so that uncheckpointed records exist at rest"""
+    kt = rng.choice(["bytes", "bytes", "string", "u32"])
+    keys = key_pool(kt, rng, rng.choice([2, 3]))
+    contents = content_pool(rng, rng.choice([2, 3]), 0.0)
+    lines = [f"case {name}", f"cfg kt={kt} n={rng.choice([100, 1000])} sync=1", "open"]
+    for i in range(length):
+        r = rng.random()
+        k = hexs(rng.choice(keys))
+        if r < 0.6:
+            lines.append(f"put {k} {chunking(rng.choice(contents), rng)}")
+        elif r < 0.75:
+            lines.append(f"remove {k}")
+        elif r < 0.85:
+            lo, hi = bounds(kt, keys, rng)
+            lines.append(f"remove_range {lo} {hi}")
+        elif r < 0.93 and i < length - 2:
+            lines.append("checkpoint")
+        else:
+            lines.append(f"put {k} {chunking(rng.choice(contents), rng)}")
+    lines += ["close", "end"]
+    return "\n".join(lines) + "\n"
